@@ -758,3 +758,75 @@ Proof.
   end.
   split; [exact Hs | exact Hr].
 Qed.
+
+(* ---------- Desired / auto-desired providers during the trial eliminations ---------- *)
+(* With canRemoveDesired = false (every tryWithout validation) a Desired or auto-desired provider
+   that is not itself the one being tried is treated exactly like a Required one: validation either
+   fails or keeps it included.  Such a provider can therefore only be dropped by the very first
+   validation, i.e. when it cannot be included at all. *)
+Definition kept_kind (p : prov) : bool := (p_wanted p || p_desired p) && negb (p_excluded p).
+
+Lemma check_one_desired te st i : cf_err (check_one te false st i) = None ->
+  (forall k p, getp (cf_funcs st) k = Some p -> kept_kind p = true -> p_include p = true) ->
+  (forall k p, getp (cf_funcs (check_one te false st i)) k = Some p -> kept_kind p = true -> p_include p = true).
+Proof.
+  unfold check_one. destruct (cf_err st) eqn:E0; [intros _ H; exact H|].
+  destruct (memb i (cf_seen st)); [intros _ H; exact H|].
+  destruct (getp (cf_funcs st) i) as [p|] eqn:Ep; cbn [cf_funcs cf_err]; [|intros _ H; exact H].
+  destruct (p_cannot p).
+  - destruct (p_required p) eqn:Er; [cbn; discriminate|].
+    destruct ((p_wanted p || p_desired p) && negb false && negb (p_excluded p)) eqn:Ek; [cbn; discriminate|].
+    destruct (p_include p); cbn [cf_funcs cf_err]; intros _ H k q Hk Hr; [|eapply H; eauto].
+    destruct (Nat.eq_dec i k) as [E|E].
+    + subst k. rewrite (getp_updp_same _ _ _ _ Ep) in Hk. inversion Hk; subst.
+      unfold kept_kind in Hr. simpl in Hr. unfold p_desired in *. simpl in Hr.
+      rewrite andb_true_r in Ek. rewrite Ek in Hr. discriminate.
+    + rewrite getp_updp_other in Hk by exact E. eapply H; eauto.
+  - destruct (checks_ok te (cf_funcs st) p); cbn [cf_funcs cf_err]; intros _ H k q Hk Hr; [eapply H; eauto|].
+    destruct (Nat.eq_dec i k) as [E|E].
+    + subst k. rewrite (getp_updp_same _ _ _ _ Ep) in Hk. inversion Hk; subst. simpl. eapply (H i p); eauto.
+    + rewrite getp_updp_other in Hk by exact E. eapply H; eauto.
+Qed.
+
+Lemma pass_desired te : forall todo st,
+  cf_err (fold_left (check_one te false) todo st) = None ->
+  (forall k p, getp (cf_funcs st) k = Some p -> kept_kind p = true -> p_include p = true) ->
+  (forall k p, getp (cf_funcs (fold_left (check_one te false) todo st)) k = Some p -> kept_kind p = true -> p_include p = true).
+Proof.
+  induction todo as [|i r IH]; intros st Herr H; simpl in *; [exact H|].
+  apply IH; [exact Herr|].
+  apply check_one_desired; [|exact H].
+  destruct (cf_err (check_one te false st i)) as [e|] eqn:E; [|reflexivity].
+  exfalso. clear - Herr E.
+  assert (Hstick : forall l st0 e0, cf_err st0 = Some e0 -> cf_err (fold_left (check_one te false) l st0) = Some e0).
+  { induction l as [|x r0 IHl]; intros st0 e0 H0; simpl; [exact H0|]. apply IHl. rewrite check_one_err with (e := e0); assumption. }
+  rewrite (Hstick r _ e E) in Herr. discriminate.
+Qed.
+
+Lemma check_passes_desired te : forall fuel funcs todo funcs',
+  check_passes te false fuel funcs todo = (funcs', None) ->
+  (forall k p, getp funcs k = Some p -> kept_kind p = true -> p_include p = true) ->
+  (forall k p, getp funcs' k = Some p -> kept_kind p = true -> p_include p = true).
+Proof.
+  induction fuel as [|fuel IH]; intros funcs todo funcs' H Hr.
+  - destruct todo; simpl in H; [inversion H; subst; exact Hr | discriminate].
+  - destruct todo as [|i rest]; [simpl in H; inversion H; subst; exact Hr|].
+    cbn [check_passes] in H.
+    destruct (cf_err (fold_left (check_one te false) (i :: rest) (mkCf funcs [] [] None))) as [e|] eqn:Ee; [inversion H|].
+    eapply IH; [exact H|]. apply (pass_desired te (i :: rest) (mkCf funcs [] [] None) Ee). exact Hr.
+Qed.
+
+Theorem desired_kept_in_trials te funcs funcs' :
+  validate_chain te false funcs = (funcs', None) ->
+  forall k p, getp funcs' k = Some p -> kept_kind p = true -> p_include p = true.
+Proof.
+  intros H. unfold validate_chain in H.
+  destruct (mark_loop funcs 0 funcs []) as [[fs remaining] [e|]] eqn:Em; [inversion H|].
+  pose proof (mark_loop_spec funcs [] [] fs remaining Em) as [Hfs Hrem]. simpl in Hfs. subst fs.
+  eapply check_passes_desired; [exact H|].
+  intros k p Hk Hr. unfold getp in Hk. rewrite nth_opt_map in Hk.
+  destruct (nth_opt k funcs) as [q|] eqn:Eq; [|discriminate]. simpl in Hk. inversion Hk; subst.
+  unfold mark in *. destruct (negb (p_excluded q)) eqn:Ex; [reflexivity|].
+  unfold kept_kind in Hr. simpl in Hr. unfold p_desired in Hr. simpl in Hr.
+  apply negb_false_iff in Ex. rewrite Ex in Hr. simpl in Hr. rewrite andb_false_r in Hr. discriminate.
+Qed.
